@@ -726,6 +726,8 @@ def main(pid, tier, repo=None):
         from . import proto
         infos = proto.scan_all(ctx)
         proto.rule_done_render(ctx, infos)
+        from . import c13
+        c13.rule_tracker(ctx)       # the budget is one atomic read-modify-write: whether a render fits does not depend on scheduling
         proto.rule_wait(ctx, infos)
         proto.rule_placeholder(ctx, infos)
     ctx.not_decided("bit-identity of samples across pool sizes (needs the disjointness arithmetic of into_groups*, value-level)")
